@@ -23,7 +23,8 @@ def _report(ctx, out, tracep):
 
 def run(ctx):
     q = ctx.quick()
-    res = vlib.run_tlc(os.path.join(vlib.SPEC, "mc", "C08.tla"), workdir=ctx.path("tlc"), workers=12)
+    res = vlib.run_tlc(os.path.join(vlib.SPEC, "mc", "C08.tla"), cfg=os.path.join(vlib.SPEC, "mc", "C08.cfg" if q else "C08Big.cfg"),
+                       workdir=ctx.path("tlc"), workers=12)
     if res.notes:
         vlib.log("interference on the specification: " + res.notes[0][:500])
     vlib.require_clean_tlc(res, "C08 non-interference on the specification")
